@@ -502,10 +502,12 @@ package compiler
 //@   modifies def.Enum.Values
 //@   ensures  same: result.Kind == ast.KindEnum && result.Enum == def.Enum
 //@   ensures  members: len(def.Enum.Values) == old(len(def.Enum.Values)) && (forall v: int :: 0 <= v && v < len(def.Enum.Values) ==> def.Enum.Values[v].Type == old(def.Enum.Values[v].Type) && def.Enum.Values[v].Value == old(def.Enum.Values[v].Value))
+//@   ensures  prefixed: forall v: int :: 0 <= v && v < len(def.Enum.Values) ==> def.Enum.Values[v].Name == call("tools.UpperCamelCase", parentName) + call("compiler.(*PrefixEnumValues).enumMemberNameFromValue", pass, old(def.Enum.Values[v]))
 //@   loop 0:
 //@     invariant fresh: base(values) != 0 && fresh(values)
 //@     invariant len: len(values) == $i + 1
 //@     invariant members: forall v: int :: 0 <= v && v < len(values) ==> values[v].Type == old(def.Enum.Values[v].Type) && values[v].Value == old(def.Enum.Values[v].Value)
+//@     invariant prefixed: forall v: int :: 0 <= v && v < len(values) ==> values[v].Name == call("tools.UpperCamelCase", parentName) + call("compiler.(*PrefixEnumValues).enumMemberNameFromValue", pass, old(def.Enum.Values[v]))
 //
 //@ func (*PrefixEnumValues).enumMemberNameFromValue
 //@   pure
@@ -610,6 +612,7 @@ package compiler
 //@   property C06
 //@   requires pass != nil && visitor != nil && schema != nil && def.Kind == ast.KindDisjunction
 //@   ensures  leaf: result.1 == nil ==> result.0.Kind == ast.KindScalar || result.0.Kind == ast.KindRef
+//@   ensures  resolves: result.1 == nil && result.0.Kind == ast.KindRef ==> result.0.Ref != nil && visitor.newObjects != nil && visitor.newObjects.records.has(refKey(result.0.Ref.ReferredPkg, result.0.Ref.ReferredType))
 //
 // duplicate_object: for schemas of the target package, when the source object exists, an object is
 // registered under the new name whose type is a DEEP copy of the source's type (faithful, and sharing no
